@@ -142,6 +142,7 @@ def main():
         "confirmed_in_scratch_worktree": confirm,
         "checks_run": {c: {k: v for k, v in r.items() if k != "tail" or v} for c, r in results.items()},
         "caught_by": [c for c, r in results.items() if r["exit"] == 1 and r["violations"] > 0],
+        "note": (json.load(open(prev_meta)).get("note") if os.path.exists(prev_meta) else None),
         "how_run": ("isolated: scratch worktree with the change bound over /repo in a private mount namespace"
                     if a.isolated else "git -C /repo apply; ./check; git -C /repo checkout -- ."),
         "tier": a.tier,
